@@ -286,7 +286,7 @@ class Contract:
     def __init__(self, target, props=(), params=None, self_type=None, requires=None, ensures=None,
                  raises=None, modifies=None, returns=None, effects=None, loops=None, inline=False,
                  raise_when=None, setup=None, twins=None, replay=None, top=False, note='',
-                 checks=None,
+                 checks=None, inline_callees=(),
                  old_at='entry', kwargs_type=None, monitor=False, events=True, raise_effects=None,
                  reach=True):
         self.target = target
@@ -295,6 +295,7 @@ class Contract:
         self.self_type = self_type
         self.requires = requires or (lambda c: [])
         self.ensures = ensures or (lambda c: {})   # checked at the root, assumed at call sites
+        self.inline_callees = tuple(inline_callees)
         self.checks = checks or (lambda c: {})     # checked at the root only (trace / top-level)
         self.raises = raises or {}        # exc class name -> fn(c) -> dict name->Bool (checked)
         self.raise_when = raise_when or {}  # exc class name -> fn(c) -> Bool assumed at call sites
